@@ -464,9 +464,12 @@ impl<T: InternalSourceController<MeasurementDelay = NtpDuration>> SourceControll
                     .handle_measurement(InternalMeasurement {
                         delay: (measurement.receiver_ts - last_outgoing.sender_ts)
                             - (measurement.sender_ts - last_outgoing.receiver_ts),
-                        offset: ((last_outgoing.receiver_ts - last_outgoing.sender_ts)
-                            + (measurement.sender_ts - measurement.receiver_ts))
-                            / 2,
+                        // Note: the two differences are averaged without forming their
+                        // sum as an NtpDuration. With a local clock that is more than ~34
+                        // years off (e.g. at the unix epoch because there is no RTC) that
+                        // sum saturates, even though the offset itself is representable.
+                        offset: (last_outgoing.receiver_ts - last_outgoing.sender_ts)
+                            .mean(measurement.sender_ts - measurement.receiver_ts),
                         localtime: measurement.receiver_ts,
                         root_delay: measurement.root_delay,
                         root_dispersion: measurement.root_dispersion,
